@@ -455,6 +455,44 @@ pub fn sweep_f64_grid(args: &[String]) -> i32 {
                         }
                     }
                 }
+                // short mantissas: random fractions with exactly L significant leading bits, L = 1..=52, i.e. the
+                // dyadic rationals n / 2^k for every bit length of n
+                let mut st: u64 = 0x9E3779B97F4A7C15 ^ (be.wrapping_mul(0xD1B54A32D192ED03));
+                for l in 1..=52_u32 {
+                    for _ in 0..24 {
+                        st ^= st << 13;
+                        st ^= st >> 7;
+                        st ^= st << 17;
+                        let fr = ((st >> (64 - l)) | 1) << (52 - l);
+                        for sign in 0..2_u64 {
+                            let bits = (sign << 63) | (be << 52) | (fr & 0xfffffffffffff);
+                            let f = f64::from_bits(bits);
+                            checked += 1;
+                            let got = match std::panic::catch_unwind(|| Decimal::try_from(f)) {
+                                Ok(g) => g,
+                                Err(_) => {
+                                    mism += 1;
+                                    if lines.len() < 20 {
+                                        lines.push(format!("MISMATCH fromf64 {} got P", bits));
+                                    }
+                                    continue;
+                                }
+                            };
+                            let want = ref_f64(bits);
+                            let same = match (&got, &want) {
+                                (Ok(d), Ok((cf, s))) => d.coefficient() == *cf && d.n_frac_digits() == *s,
+                                (Err(e), Err(k)) => format!("{:?}", e) == *k,
+                                _ => false,
+                            };
+                            if !same && bits != 0xC7E0_0000_0000_0000 {
+                                mism += 1;
+                                if lines.len() < 20 {
+                                    lines.push(format!("MISMATCH fromf64 {} got {} want {}", bits, fmt_got(&got), fmt_want(&want)));
+                                }
+                            }
+                        }
+                    }
+                }
                 be += nthreads;
             }
             (checked, mism, lines)
@@ -679,6 +717,198 @@ pub fn sweep_tof32_hard(args: &[String]) -> i32 {
         }
     }
     println!("INFO scanned={} candidates={}", scanned, cands);
+    println!("DONE checked={} mismatches={}", checked, mism);
+    0
+}
+
+// ---------------------------------------------------------------------
+// as_integer_ratio on many full-width coefficients against Euclid's gcd (long reduction chains are rare:
+// P(chain > 100 passes) ~ 1e-7 per sample, so volume is what reaches them)
+
+fn gcd_u128(mut a: u128, mut b: u128) -> u128 {
+    while b != 0 {
+        let t = a % b;
+        a = b;
+        b = t;
+    }
+    a
+}
+
+/// `--sweep-ratio <n per thread> <seed> <nthreads>`
+pub fn sweep_ratio(args: &[String]) -> i32 {
+    let n: u64 = args[0].parse().expect("n");
+    let seed: u64 = args[1].parse().expect("seed");
+    let nthreads: u64 = args[2].parse().expect("nthreads");
+    let mut handles = Vec::new();
+    for t in 0..nthreads {
+        handles.push(std::thread::spawn(move || {
+            let mut s: u128 = ((seed as u128) << 64 | 0x243F6A8885A308D3) ^ ((t as u128 + 1) * 0x9E3779B97F4A7C15F39CC0605CEDC835);
+            let mut next = move || {
+                s = s.wrapping_mul(0x2360ED051FC65DA44385DF649FCCF645).wrapping_add(0x14057B7EF767814F);
+                s ^ (s >> 59)
+            };
+            let mut checked = 0_u64;
+            let mut mism = 0_u64;
+            let mut lines: Vec<String> = Vec::new();
+            let mut max_passes_seen = 0_u32;
+            for i in 0..n {
+                let r = next();
+                let mut c = (next() >> 1) as i128; // 127 bits
+                match i % 4 {
+                    1 => c |= 1 << 126,                                  // full width
+                    2 => c = (c >> ((r >> 70) % 100)) | 1,               // any width, odd
+                    3 => c = (c | (1 << 126)) / 5 * 5,                    // multiple of 5
+                    _ => {}
+                }
+                if c == 0 {
+                    c = 1;
+                }
+                if r & 1 == 1 {
+                    c = -c;
+                }
+                let sc = match (r >> 8) % 6 {
+                    0 => 18,
+                    1 => 17,
+                    2 => 1,
+                    3 => 2,
+                    _ => 1 + ((r >> 16) % 18) as u8,
+                };
+                let d = Decimal::new_raw(c, sc);
+                let (num, den) = d.as_integer_ratio();
+                let ten = 10_u128.pow(sc as u32);
+                // gcd(|c|, 2^sc * 5^sc) from the 2-adic and 5-adic valuations of c (capped at sc)
+                let mut g: u128 = 1 << std::cmp::min(c.unsigned_abs().trailing_zeros(), sc as u32);
+                let mut t5 = c.unsigned_abs();
+                let mut k5 = 0;
+                while k5 < sc && t5 % 5 == 0 {
+                    t5 /= 5;
+                    k5 += 1;
+                    g *= 5;
+                }
+                let want_n = c / g as i128;
+                let want_d = (ten / g) as i128;
+                checked += 1;
+                // classification only: how long was the reduction chain (binary gcd passes)?
+                if i % 256 == 0 {
+                    let mut u = c.unsigned_abs();
+                    u >>= u.trailing_zeros();
+                    let mut v = 5_u128.pow(sc as u32);
+                    let mut p = 0_u32;
+                    while v != 0 {
+                        p += 1;
+                        v >>= v.trailing_zeros();
+                        if u > v {
+                            std::mem::swap(&mut u, &mut v);
+                        }
+                        v -= u;
+                    }
+                    if p > max_passes_seen {
+                        max_passes_seen = p;
+                    }
+                }
+                if num != want_n || den != want_d || d.numerator() != want_n || d.denominator() != want_d {
+                    mism += 1;
+                    if lines.len() < 20 {
+                        lines.push(format!("MISMATCH ratio D{}:{} got {} {} want {} {}", c, sc, num, den, want_n, want_d));
+                    }
+                }
+            }
+            (checked, mism, lines, max_passes_seen)
+        }));
+    }
+    let (mut checked, mut mism, mut maxp) = (0_u64, 0_u64, 0_u32);
+    for h in handles {
+        let (c, m, lines, p) = h.join().expect("sweep thread panicked");
+        checked += c;
+        mism += m;
+        maxp = maxp.max(p);
+        for l in lines {
+            println!("{}", l);
+        }
+    }
+    println!("INFO longest_reduction_chain_in_1_of_256_sample={}", maxp);
+    println!("DONE checked={} mismatches={}", checked, mism);
+    0
+}
+
+// ---------------------------------------------------------------------
+// f32 -> Decimal hard cases: scan ALL f32 patterns for values whose 18-digit scaling lies extremely close to a
+// rounding tie (no library call in the scan), check every candidate and its neighbours exactly
+
+/// `--sweep-f32-hard <nthreads> <closeness bits>`
+pub fn sweep_f32_hard(args: &[String]) -> i32 {
+    let nthreads: u64 = args[0].parse().expect("nthreads");
+    let bits_thr: u32 = args.get(1).map(|s| s.parse().expect("bits")).unwrap_or(20);
+    let mut handles = Vec::new();
+    let total: u64 = 1 << 31; // magnitudes; both signs are checked for each candidate
+    let chunk = total / nthreads;
+    for t in 0..nthreads {
+        let a = t * chunk;
+        let b = if t == nthreads - 1 { total } else { a + chunk };
+        handles.push(std::thread::spawn(move || {
+            let mut cands = 0_u64;
+            let mut checked = 0_u64;
+            let mut mism = 0_u64;
+            let mut lines: Vec<String> = Vec::new();
+            let mut bits = a;
+            while bits < b {
+                let be = ((bits >> 23) & 0xff) as i32;
+                let frac = (bits & 0x7fffff) as u128;
+                if be != 0 && be != 0xff {
+                    let m = frac | 0x800000;
+                    let e = be - 150;
+                    if e < 0 {
+                        let k = (-e) as u32;
+                        if k < 128 {
+                            let num = m * 1_000_000_000_000_000_000_u128;
+                            let rem = num & ((1_u128 << k) - 1);
+                            let half = 1_u128 << (k - 1);
+                            let d = if rem >= half { rem - half } else { half - rem };
+                            if k > bits_thr && d < (half >> bits_thr) {
+                                cands += 1;
+                                for bb in [bits.wrapping_sub(1), bits, bits + 1] {
+                                    for sign in [0_u64, 1 << 31] {
+                                        let pat = (bb | sign) as u32;
+                                        let f = f32::from_bits(pat);
+                                        if !f.is_finite() {
+                                            continue;
+                                        }
+                                        let got = Decimal::try_from(f);
+                                        let want = ref_f32(pat);
+                                        checked += 1;
+                                        let same = match (&got, &want) {
+                                            (Ok(d), Ok((cf, s))) => d.coefficient() == *cf && d.n_frac_digits() == *s,
+                                            (Err(e), Err(k)) => format!("{:?}", e) == *k,
+                                            _ => false,
+                                        };
+                                        if !same {
+                                            mism += 1;
+                                            if lines.len() < 20 {
+                                                lines.push(format!("MISMATCH fromf32 {} got {} want {}", pat, fmt_got(&got), fmt_want(&want)));
+                                            }
+                                        }
+                                    }
+                                }
+                            }
+                        }
+                    }
+                }
+                bits += 1;
+            }
+            (cands, checked, mism, lines)
+        }));
+    }
+    let (mut cands, mut checked, mut mism) = (0_u64, 0_u64, 0_u64);
+    for h in handles {
+        let (k, c, m, lines) = h.join().expect("sweep thread panicked");
+        cands += k;
+        checked += c;
+        mism += m;
+        for l in lines {
+            println!("{}", l);
+        }
+    }
+    println!("INFO scanned=2147483648 candidates={}", cands);
     println!("DONE checked={} mismatches={}", checked, mism);
     0
 }
